@@ -56,8 +56,9 @@ def generate(rng, tier):
         A("bsm.compact_verify", kb(ks[9]), 1, "l:16:70000", "c4")
         A("bsm.tamper", kb(ks[9]), 1, "l:17:65536", "00", "m", 8 * 65535)
 
-    # tests/bsm.rs
-    A("bsm.compact_verify", "7318f2aeb5a0d2b1c2d9a4f6d0bd5a5d9e3b5c5c0e9d2a7a0c6e6fbbd9e0a1b2", 1, "48656c6c6f20426974636f696e21", "00")
+    # tests/bsm.rs: key of WIF L17y3TE8AgM6fiWFP4HsbaLnvuBJsQcFKYRoJoZULpTzeTCr2nEC, message "Hello Bitcoin!"
+    A("bsm.compact_verify", "74650e3f8a2d0a06959158581a4dfd5a5c7e42cb87fa4b060067578fbe028f6f", 1, "48656c6c6f20426974636f696e21", "00")
+    A("bsm.compact_verify", "74650e3f8a2d0a06959158581a4dfd5a5c7e42cb87fa4b060067578fbe028f6f", 0, "48656c6c6f20426974636f696e21", "6f")
 
     # sign + verify + compact round trip: every key x both forms, lengths across the 252/253 boundary
     i = 0
@@ -70,7 +71,7 @@ def generate(rng, tier):
         d = rng.choice(ks)
         A("bsm.compact_verify", kb(d), rng.randrange(2), "l:%d:%d" % (rng.randrange(1, 2 ** 31), n), rng.choice(prefixes()))
         A("bsm.sign", kb(rng.choice(ks)), rng.randrange(2), msg(rng, n))
-    for _ in range(80 if thorough else 10):
+    for _ in range(80 if thorough else 22):
         A("bsm.compact_verify", kb(rng.choice(ks)), rng.randrange(2), msg(rng, rng.randrange(0, 400)), "%02x" % rng.randrange(256))
     # the magic string itself / bytes that look like length prefixes as message
     for m in ["18426974636f696e205369676e6564204d6573736167653a0a", "fd", "fdfd00", "fe00000100", "00", "ff"]:
